@@ -21,6 +21,8 @@ import (
 // themselves with vgate(op); the two atomics of the dirty flag are matched by name.
 //verif:visible[c08] (*sync/atomic.Bool).Load
 //verif:visible[c08] (*sync/atomic.Bool).Store
+//verif:visible[c08] (*sync/atomic.Bool).CompareAndSwap
+//verif:visible[c08] (*sync/atomic.Bool).Swap
 
 // vhBLock: a readers-writer lock for interpreted threads (blocks by waiting for another thread's step).
 type vhBLock struct {
@@ -216,11 +218,19 @@ func VH_C08_one_connection() {
 
 // VH_C08_two_connections: two connections write concurrently; every interleaving at the visible operations
 // (lock, unlock, the atomics of the dirty flag, socket read/write).
-//verif:cfg use=c08 b_connections=2 b_commands_each=1 quick.b_interleavings=all_with_at_most_4_context_switches thorough.b_interleavings=all_with_at_most_6_context_switches b_visible_operations=lock,unlock,atomic.Bool_load/store,socket_read/write quick.maxswitches=4 thorough.maxswitches=6 ignorego=1 maxpaths=400000
+//verif:cfg use=c08 b_connections=2 b_commands_each=1(SET_and_SET|PING|GET) quick.b_interleavings=all_with_at_most_4_context_switches thorough.b_interleavings=all_with_at_most_6_context_switches b_visible_operations=lock,unlock,atomic.Bool_load/store/compare-and-swap/swap,socket_read/write quick.maxswitches=4 thorough.maxswitches=6 ignorego=1 maxpaths=400000
 func VH_C08_two_connections() {
 	s := vhAckServer()
 	a := vhConnFor(s, 0, []string{"SET", "k", "a", "POINT", "1", "2"}, []string{"SET", "k", "a", "POINT", "1", "2"})
-	b := vhConnFor(s, 1, []string{"SET", "k", "b", "POINT", "3", "4"}, []string{"SET", "k", "b", "POINT", "3", "4"})
+	var b *vhConn
+	switch vchoose(3) {
+	case 0:
+		b = vhConnFor(s, 1, []string{"SET", "k", "b", "POINT", "3", "4"}, []string{"SET", "k", "b", "POINT", "3", "4"})
+	case 1:
+		b = vhConnFor(s, 1, []string{"PING"}, nil) // a reply is pending although nothing was written
+	default:
+		b = vhConnFor(s, 1, []string{"GET", "k", "a"}, nil)
+	}
 	vhServeConns(s, a, b)
 	vassert("C08.both_replies_sent", a.acked == 1 && b.acked == 1)
 }
